@@ -17,6 +17,7 @@ func init() {
 		e.RMapOrder(func(m mapRange) bool { return m.fd.Name.Name == "updateImports" })
 		e.RUniqueNames()
 		e.RAddsEveryMissing()
+		e.RDeadAppend()
 		e.RAliasFlow()
 		e.RPackageNamesOwnership()
 		e.RRestoreIdent()
